@@ -207,6 +207,26 @@ func normalise(res *sqlref.Result, mode string) *sqlref.Result {
 	cp := *res
 	cp.Full = sqlref.NormalizeCSV(res.Full)
 	cp.Rows = sqlref.NormalizeCSV(res.Rows)
+	// csv prints NULL and the empty string alike. If an ORDER BY key column holds both, the
+	// printed rows cannot be checked against that key's tie-breakers: the two values are adjacent
+	// in the order, so folding them keeps every comparison on the keys up to and including that
+	// column sound (a strict "before" stays strict), but the later keys are only ordered within the
+	// true, unobservable, tie groups. The order keys are truncated there (weaker, never wrong).
+	for j, k := range res.OrderBy {
+		hasNull, hasEmpty := false, false
+		for _, r := range res.Full {
+			v := r[k.Col]
+			if v.IsNull() {
+				hasNull = true
+			} else if v.K == sqlref.KString && v.S == "" {
+				hasEmpty = true
+			}
+		}
+		if hasNull && hasEmpty {
+			cp.OrderBy = append([]sqlref.OrderKey{}, res.OrderBy[:j+1]...)
+			break
+		}
+	}
 	if res.AltRow != nil {
 		cp.AltRow = sqlref.NormalizeCSV([]sqlref.Row{res.AltRow})[0]
 	}
